@@ -342,7 +342,8 @@ func mutate(t *rapid.T, m *Msg, witness uint64) {
 	case "hdr-flags":
 		m.Flags ^= 1 << uint(rapid.IntRange(0, 7).Draw(t, "bit"))
 	case "hdr-len":
-		m.LenSet = rapid.SampledFrom([]int{0, 1, 4, 8, 12, 0xffff, 0x7fff}).Draw(t, "len")
+		// the 16-bit length field: small values, both ends of the range (arithmetic on it may wrap), the sign boundary
+		m.LenSet = rapid.OneOf(rapid.SampledFrom([]int{0, 1, 4, 8, 12, 0xffff, 0x7fff, 0x8000}), rapid.IntRange(0xfff0, 0xffff), rapid.IntRange(0, 20), rapid.IntRange(0, 0xffff)).Draw(t, "len")
 		if rapid.Bool().Draw(t, "near") {
 			cur := len(m.bytes()) - 4
 			m.LenSet = cur + rapid.SampledFrom([]int{-9, -4, -1, 1, 4, 9}).Draw(t, "d")
@@ -371,7 +372,7 @@ func mutate(t *rapid.T, m *Msg, witness uint64) {
 		}
 	case "ie-len-set":
 		if n := pick(); n != nil {
-			n.HasSet, n.LenSet = true, rapid.SampledFrom([]int{0, 1, 2, 3, 0xffff, 0x8000, 255, 256}).Draw(t, "lenset")
+			n.HasSet, n.LenSet = true, rapid.OneOf(rapid.SampledFrom([]int{0, 1, 2, 3, 0xffff, 0x8000, 0x7fff, 255, 256}), rapid.IntRange(0xfff0, 0xffff), rapid.IntRange(0, 12)).Draw(t, "lenset")
 		}
 	case "ie-trunc":
 		if n := pick(); n != nil && !n.Grouped && len(n.Val) > 0 {
